@@ -311,8 +311,13 @@ def ref_normal(p):
     mp = _mp()
     x, mu, s = mpf(p['x']), mpf(p['mu']), mpf(p['sigma'])
     z = (x - mu) / s
-    # T: magnitudes of the terms + sensitivity to one rounding of the inputs: |x d/dx| + |mu d/dmu| = |z| (|x| + |mu|) / sigma
-    return -mp.log(s * mp.sqrt(2 * mp.pi)) - z * z / 2, abs(mp.log(s * mp.sqrt(2 * mp.pi))) + z * z / 2 + 1 + abs(z) * (abs(x) + abs(mu)) / s
+    # T: magnitudes of the terms of ln(1/(sigma sqrt(2 pi))) - z^2/2 with z = (x - mu)/sigma formed from the (exact) difference of
+    # the two floats.  T_wide additionally allows one rounding of x/sigma and mu/sigma SEPARATELY, |z| (|x| + |mu|) / sigma: the terms
+    # involved when the standardised variable is formed as x/sigma - mu/sigma, as TensorFlow Probability's Normal.log_prob does
+    # (squared_difference(x / scale, loc / scale)); it is used for the tensorflow backend only (see T_of)
+    T = abs(mp.log(s * mp.sqrt(2 * mp.pi))) + z * z / 2 + 1
+    p['T_wide'] = T + abs(z) * (abs(x) + abs(mu)) / s
+    return -mp.log(s * mp.sqrt(2 * mp.pi)) - z * z / 2, T
 
 
 def ref_poisson(p):
@@ -518,10 +523,16 @@ def finite(v):
     return v is not None and v == v and abs(v) != float('inf')
 
 
-def tol_log(p, prec):
+def T_of(p, backend):
+    """magnitude of the terms involved: for the Normal log-density on tensorflow the kernel (tfp) standardises x and mu separately"""
+    return p['T_wide'] if backend == 'tensorflow' and 'T_wide' in p else p['T']
+
+
+def tol_log(p, prec, backend=None):
     """absolute tolerance on a log-density: max(relative 1e-10 (1e-4 for 32b), k ulp of the largest term involved), plus the
     half-width of the certified enclosure of the reference"""
-    T = Fraction(*float(p['T']).as_integer_ratio()) if not isinstance(p['T'], Fraction) else p['T']
+    Tv = T_of(p, backend)
+    T = Fraction(*float(Tv).as_integer_ratio()) if not isinstance(Tv, Fraction) else Tv
     return max(Fraction(REL[prec]) * abs(p['ref']), Fraction(KULP[prec]) * Fraction(EPS[prec]) * T) + p['ref_err']
 
 
@@ -557,7 +568,7 @@ def compare_all(backend, prec, pts, got):
             v = g['log'][i]
             if v is None:
                 continue
-            t = tol_log(p, prec)
+            t = tol_log(p, prec, backend)
             chk(fam, 'log', i, p, v, p['ref'], t)
             # non-log = exp(log): relative error of exp = absolute error of its argument
             if p['ref'] < -1200:
@@ -572,9 +583,9 @@ def compare_all(backend, prec, pts, got):
             # the distribution object gives the same number as the function (same kernel: a few ulp of the largest term)
             ncmp += 1
             d = g['dist'][i]
-            if finite(v) and (not finite(d) or abs(fr(d) - fr(v)) > Fraction(4 * EPS[prec]) * fr(float(p['T']))):
+            if finite(v) and (not finite(d) or abs(fr(d) - fr(v)) > Fraction(4 * EPS[prec]) * fr(float(T_of(p, backend)))):
                 bad.append(dict(func='%s.dist' % fam, backend=backend, prec=prec, args={k: p[k] for k in p if k in ('x', 'mu', 'sigma', 'n', 'lam')},
-                                impl=d, expected=v, tol=4 * EPS[prec] * float(p['T']), regime=regime(fam, p), reference='function form'))
+                                impl=d, expected=v, tol=4 * EPS[prec] * float(T_of(p, backend)), regime=regime(fam, p), reference='function form'))
     for i, p in enumerate(pts['cdf']):
         v = got['cdf']['cdf'][i]
         if v is None:
